@@ -38,6 +38,7 @@ Consume ==
          [] e.k = "op" /\ e.a = "notify"   -> IF e.in = 1 THEN NotifyIn(e.s) ELSE Notify(e.s)
          [] e.k = "op" /\ e.a = "drain"    -> Drain(e.l)
          [] e.k = "op" /\ e.a = "recreate" -> Recreate(e.l)
+         [] e.k = "op" /\ e.a = "sleep"    -> IF e.in = 1 THEN SleepIn ELSE Sleep
          [] e.k = "op" /\ e.a = "pbegin"   -> PBegin
          \* a callback that resolves to a filler (an attachment the model does not know) is foreign
          [] e.k = "op" /\ e.a = "cb"       -> IF e.filler = 1 THEN Cb({}, {})
